@@ -6,7 +6,7 @@
     functions ([paths_of], [paths_to], [connected_components], ...) transcribe graph/*.go; panics
     and fuel exhaustion are the result values [Panic]/[Hang], so "returns [Ok]" includes
     termination of every loop and recursion of the model. *)
-From Algo.C14 Require Import Spec ProofsBasic ProofsTrav ProofsReach.
+From Algo.C14 Require Import Spec ProofsBasic ProofsTrav ProofsReach ProofsBfs ProofsScc ProofsCC.
 
 (** * The property at full strength *)
 Definition nonneg (es : list edge) : Prop := forall e, In e es -> (0 <= e_w e)%Z.
@@ -66,10 +66,28 @@ Theorem C14_graph_edges :
               ((e_a e = u /\ e_b e = w) \/ (d = false /\ e_b e = u /\ e_a e = w)).
 Proof. exact mk_graph_edge_rel. Qed.
 
-(** Reachability, for all graphs, sources, targets and the three strategies: the traversal
-    terminates within its fuel, visits exactly the reachable vertices, [To v] terminates and
-    returns a real, simple path from [s] to [v] iff [v] is reachable. *)
-Theorem C14_paths_partial :
+(** Clause 1 of [C14_full], fully proved: for all graphs, sources, targets and the three
+    strategies the traversal terminates within its fuel, [To v] terminates and returns a real
+    path from [s] to [v] iff [v] is reachable, and the BFS path has the fewest edges. *)
+Theorem C14_paths :
+  forall d n es sg s, s < n ->
+    let g := mk_graph d n es in
+    exists p, paths_of g sg s = Ok p /\
+      forall v, v < n ->
+        match paths_to p v with
+        | Ok (Some l) => is_path g s v l /\
+                         (sg = SBFS -> forall l', is_path g s v l' -> length l <= length l')
+        | Ok None => ~ reach g s v
+        | _ => False
+        end.
+Proof.
+  intros d n es sg s Hs g.
+  pose proof (paths_full g s sg (wf_mk_graph d n es)) as H.
+  unfold g in *. rewrite mk_graph_n in H. apply H. exact Hs.
+Qed.
+
+(** The visited set is exactly the reachable set, and the returned paths are simple. *)
+Theorem C14_paths_visited :
   forall d n es sg s, s < n ->
     let g := mk_graph d n es in
     exists p, paths_of g sg s = Ok p /\
@@ -81,6 +99,46 @@ Proof.
   intros d n es sg s Hs g.
   pose proof (paths_correct g (wf_mk_graph d n es) s) as H.
   unfold g in *. rewrite mk_graph_n in H. apply H. exact Hs.
+Qed.
+
+(** Clause 2 of [C14_full], fully proved: ConnectedComponents terminates and two vertices get
+    the same id iff they are connected; ids are below the component count. *)
+Theorem C14_connected_components :
+  forall n es,
+    let g := mk_graph false n es in
+    exists c, connected_components g = Ok c /\ length (snd c) = n /\
+      forall v w, v < n -> w < n ->
+        getn (snd c) v < fst c /\ (getn (snd c) v = getn (snd c) w <-> reach g v w).
+Proof. intros n es. exact (cc_correct_mk n es). Qed.
+
+(** Checker theorem for components, unbounded: ids accepted by [check_scc] characterise mutual
+    reachability; run on the implementation's and on the model's ids for every generated graph. *)
+Theorem C14_check_scc_sound :
+  forall g ids, wf g -> check_scc g ids = true ->
+    length ids = g_n g /\
+    forall v w, v < g_n g -> w < g_n g ->
+      (getn ids v = getn ids w <-> mutually_reachable g v w).
+Proof. exact check_scc_sound. Qed.
+
+Theorem C14_check_cc_sound :
+  forall n es ids, check_cc (mk_graph false n es) ids = true ->
+    length ids = n /\
+    forall v w, v < n -> w < n -> (getn ids v = getn ids w <-> reach (mk_graph false n es) v w).
+Proof. exact check_cc_sound. Qed.
+
+(** Clause 3 (Kosaraju), partial: whenever the ids computed by the algorithm pass the checker
+    they are correct. Missing: that Kosaraju's output always passes (checked on every generated
+    graph by the extracted checker instead). *)
+Theorem C14_scc_partial :
+  forall n es c,
+    let g := mk_graph true n es in
+    strongly_connected_components g = Ok c -> check_scc g (snd c) = true ->
+    forall v w, v < n -> w < n ->
+      (getn (snd c) v = getn (snd c) w <-> mutually_reachable g v w).
+Proof.
+  intros n es c g _ H v w Hv Hw.
+  destruct (check_scc_sound g (snd c) (wf_mk_graph true n es) H) as [_ K].
+  unfold g in K. rewrite mk_graph_n in K. now apply K.
 Qed.
 
 (** Soundness of the simple certificate checkers run on the implementation's answers. *)
@@ -104,7 +162,12 @@ Example C14_example :
 Proof. vm_compute. split; reflexivity. Qed.
 
 Print Assumptions C14_graph_edges.
-Print Assumptions C14_paths_partial.
+Print Assumptions C14_paths.
+Print Assumptions C14_paths_visited.
+Print Assumptions C14_connected_components.
+Print Assumptions C14_check_scc_sound.
+Print Assumptions C14_check_cc_sound.
+Print Assumptions C14_scc_partial.
 Print Assumptions C14_check_path_sound.
 Print Assumptions C14_check_cycle_sound.
 Print Assumptions C14_check_topo_sound.
